@@ -36,7 +36,11 @@ impl<F: Fam> Ctx<F> {
             }
             Op::InsertMany { s, n, v } => {
                 let s = (*s & 1) as usize;
+                let cap = self.len_cap(s);
                 for i in 0..(*n).min(BULK_CAP) {
+                    if self.slots[s].model.len() >= cap {
+                        break;
+                    }
                     let kk = self.fresh_key();
                     self.do_insert(s, kk, v.wrapping_add(i), None)?;
                     self.quick_check(s, &[C01])?;
@@ -140,6 +144,23 @@ impl<F: Fam> Ctx<F> {
                 self.after_op(s, &[C01], true)
             }
             Op::CrossGet => self.do_cross_get(),
+            Op::RemoveOld { s, how, keep } => {
+                let s = (*s & 1) as usize;
+                let mut keys: Vec<u32> = self.old_keys_pub(s).into_iter().collect();
+                let keep = (*keep as usize).min(keys.len());
+                keys.truncate(keys.len() - keep);
+                for kk in keys {
+                    match how % 5 {
+                        0 => self.do_remove(s, kk, false)?,
+                        1 => self.do_remove(s, kk, true)?,
+                        2 => self.do_chain(s, kk, None, &Chain { steps: vec![], end: EEnd::Match(OStep::Get, OEnd::Remove, VEnd::Drop) })?,
+                        3 => self.do_chain(s, kk, Some(RawHow::FromKey), &Chain { steps: vec![], end: EEnd::Match(OStep::Key, OEnd::RemoveEntry, VEnd::Drop) })?,
+                        _ => self.do_chain(s, kk, None, &Chain { steps: vec![EStep::AndReplace(None)], end: EEnd::Drop })?,
+                    }
+                    self.quick_check(s, &[C01])?;
+                }
+                self.after_op(s, &[C01], true)
+            }
             Op::RemoveAll { s } => {
                 let s = (*s & 1) as usize;
                 let keys: Vec<u32> = self.slots[s].model.keys().copied().collect();
@@ -158,7 +179,11 @@ impl<F: Fam> Ctx<F> {
             }
             Op::SetInsertMany { s, n } => {
                 let s = (*s & 1) as usize;
+                let cap = self.len_cap(s + 2);
                 for _ in 0..(*n).min(BULK_CAP) {
+                    if self.sets[s].model.len() >= cap {
+                        break;
+                    }
                     let kk = self.fresh_key();
                     self.do_set_point(s, kk, 0)?;
                 }
@@ -180,6 +205,15 @@ impl<F: Fam> Ctx<F> {
             Op::SetAlgebra => self.do_set_algebra(),
             Op::SetPar { threads, reps } => self.do_set_par(*threads, *reps),
             Op::SetSerde { s, in_place } => self.do_set_serde((*s & 1) as usize, *in_place),
+        }
+    }
+
+    /// low-entropy and colliding hashers make probing quadratic: bulk steering stops early there
+    fn len_cap(&self, mi: usize) -> usize {
+        match self.meta[mi].vh.mode {
+            HMode::Collide => 400,
+            HMode::Low => 1500,
+            _ => usize::MAX,
         }
     }
 
@@ -476,6 +510,7 @@ impl<F: Fam> Ctx<F> {
 
     fn follow_inserts(&mut self, s: usize, n: usize, what: &'static str) -> Result<(), Fail> {
         let lim = if self.big { 20_000 } else { 4096 };
+        let lim = lim.min(self.len_cap(s).saturating_sub(self.slots[s].model.len()));
         for i in 0..n.min(lim) {
             let kk = self.fresh_key();
             self.do_insert(s, kk, i as u32, Some((C10, what)))?;
@@ -641,6 +676,10 @@ impl<F: Fam> Ctx<F> {
 
     fn do_fill(&mut self, s: usize, and_one_more: bool) -> Result<(), Fail> {
         let lim = if self.big { 300_000 } else { 40_000 };
+        let lcap = self.len_cap(s);
+        if self.slots[s].model.len() >= lcap {
+            return Ok(());
+        }
         let mut guard = 0;
         loop {
             let st = self.st(s);
@@ -674,7 +713,7 @@ impl<F: Fam> Ctx<F> {
         let st0 = self.st(s);
         let n = st0.cap.saturating_sub(st0.len);
         let lim = if self.big { 300_000 } else { 40_000 };
-        if n > lim {
+        if n > lim || st0.cap > self.len_cap(s).saturating_mul(2) {
             return Ok(());
         }
         self.stats.probes += 1;
